@@ -392,9 +392,13 @@ def _run_model(case, ctx):
                 arg = numpy.array([pts[i] for i in idx])
             elif kind in ("1d-65", "1d-129"):
                 # a long scan (more points than any block size an implementation may work in, and one over)
-                if case["seed"] % 3:
-                    continue
-                idx = [i % len(pts) for i in range(int(kind[3:]))]
+                if case["seed"] % 3 and not (numeric and label == inv_name):
+                    continue  # (closed forms: every third case; numerical inverses: every case)
+                # (cyclic, started at an offset that varies with the case, so that the first and the last element of the scan are
+                # not always the same point - the zero point, whose answer is the solver's start value, would hide an element
+                # that was never solved)
+                off = (case["seed"] // 3) % len(pts)
+                idx = [(i + off) % len(pts) for i in range(int(kind[3:]))]
                 arg = numpy.array([pts[i] for i in idx])
             elif kind == "list":
                 arg, idx = numpy.asarray(list(pts[:3])), [0, 1, 2]
@@ -423,6 +427,8 @@ def _run_model(case, ctx):
             got = numpy.asarray(v, dtype=float).reshape(-1)
             exp = numpy.array([ref_vals[i] for i in idx])
             is_num = numeric and label == inv_name
+            if is_num and kind in ("1d-65", "1d-129"):
+                ctx.count("long_scans_compared", "%s.%s/%s" % (name, label, kind))
             tol = 1e-5 if is_num else 1e-10
             # a vector root solve converges relative to the norm of the whole vector
             atol = 1e-5 * float(numpy.max(numpy.abs(exp))) if is_num else 1e-300
@@ -440,9 +446,23 @@ def _run_model(case, ctx):
                     # (tight: every value must be found again, to 1e-5 of itself; a loose absolute allowance would take an
                     # unconverged small element for a misplaced one)
                     permuted = len(exp) > 1 and all(close(g, e, 1e-5, 1e-12 * float(numpy.max(numpy.abs(exp)))) for g, e in zip(sorted(got), sorted(exp)))
+                    # long scans repeat their inputs: one vector solve moves equal inputs together from the start value (the
+                    # element-wise system and its start are symmetric in them; they may end a little apart when unconverged, which
+                    # is the recorded convergence finding). An element still exactly at the start value 0.0 while an equal input
+                    # elsewhere in the same array was moved to a non-zero answer is an element that was never solved - not a
+                    # convergence matter
+                    scale = float(numpy.max(numpy.abs(got))) if got.size else 0.0
+                    groups = {}
+                    for j, i in enumerate(idx):
+                        groups.setdefault(i, []).append(got[j])
+                    uneven = [i for i, g in groups.items() if len(g) > 1 and any(x == 0.0 for x in g) and any(abs(x) > 1e-9 * scale and x != 0.0 for x in g)]
+                    if uneven:
+                        ctx.count("numeric_inverse", name + "/array-element-left-at-start-value")
                     if permuted:
                         # the right values in the wrong places: not a convergence matter
                         key = "%s.%s/array-values-in-wrong-order/%s" % (name, label, kind)
+                    elif uneven:
+                        key = "%s.%s/array-element-never-solved/%s" % (name, label, kind)
                     elif res_ok:
                         key = "numeric-inverse[hybr-from-zeros]/array/other-solution-of-the-equation"
                     elif big_ok:
@@ -570,6 +590,11 @@ def finalize(ctx):
     for n in GM.MODEL_NAMES:
         if inv.get(n, 0) < 5:
             reasons.append("inverse law judged fewer than 5 times for %s (%d)" % (n, inv.get(n, 0)))
+    long_scans = ctx.tables.get("long_scans_compared", {})
+    for n in ("JensenSeaton.pressure", "TSLangmuir.pressure", "TemkinApprox.pressure"):
+        for k in ("1d-65", "1d-129"):
+            if long_scans.get("%s/%s" % (n, k), 0) < 3:
+                reasons.append("long scan %s judged fewer than 3 times through the numerical inverse %s" % (k, n))
     if sum(ctx.tables.get("modeliso", {}).values()) < 100:
         reasons.append("ModelIsotherm conversions rarely judged")
     for label, (hit, tot) in ctx.reach.items():
